@@ -188,7 +188,7 @@ func main() {
 			c.Subject = append(c.Subject, []av{subj[j]})
 		}
 		c.Interpret = true
-		shape := rng.Intn(14)
+		shape := rng.Intn(16)
 		base := append([]av(nil), subj...)
 		mandatory := func() []av {
 			var out []av
@@ -347,6 +347,23 @@ func main() {
 			c.Interpret = false
 			c.Subject = append(c.Subject, []av{{"UNKNOWN", "v"}})
 			c.Extra = []string{"*"}
+		case 14:
+			// the identity repeats an attribute (same or another value, adjacent or not): it cannot be interpreted, so
+			// the policy is refused - and in no case may "one of the two values" be what is compared
+			c.Shape = "identity-duplicate-attribute"
+			s := append([]av(nil), base...)
+			d := s[rng.Intn(len(s))]
+			if rng.Bool() {
+				d.V += "x"
+			}
+			pos := rng.Intn(len(s) + 1)
+			s = append(s[:pos], append([]av{d}, s[pos:]...)...)
+			c.Identities = [][]av{s}
+		case 15:
+			// identities that are not RFC 4514 distinguished names at all, next to nothing else
+			c.Shape = "identity-unparseable"
+			exact := render(base, rng, 0)
+			c.Extra = []string{[]string{exact + ",", exact + ",,CN=x", strings.Replace(exact, "=", "", 1), exact + ",CN", exact + "\\", "x509.subject:" + strings.Repeat(",", 3), exact + ",=v", exact + ",CN=\"unbalanced"}[rng.Intn(8)]}
 		}
 		parent := root
 		if rng.Bool() {
@@ -408,7 +425,7 @@ func main() {
 			if err != nil {
 				verdicts[variant] = "policy-rejected"
 				r.Event("policy-rejected")
-				if allValid && !overlap(c.Identities) {
+				if allValid && !overlap(c.Identities) && c.Shape != "identity-unparseable" {
 					r.Event("completeness:valid-identity-refused-by-policy")
 					r.Sample("valid identity refused by policy validation", map[string]any{"identities": idStrs, "error": err.Error()})
 				}
